@@ -1,7 +1,7 @@
 (* C19 — executable instantiation used by the correspondence check (no proofs; depends on Model.v only). *)
 From Coq Require Import List NArith ZArith Bool.
 Import ListNotations.
-From Verif.C19 Require Import Model.
+From Verif.C19 Require Export Model.
 
 (* unit lists are written (U [1;2;3]) by the harness *)
 Definition U (l : list N) : list N := l.
